@@ -584,21 +584,31 @@ func PreprocessDeclarationsPrelude(baseURL string, declarations []pa.Compound, p
 			if prelude == nil {
 				continue
 			}
-			hasNesting := false
-			// Replace & selector by parent.
+			// Each selector of the (comma separated) list is relative to the parent.
 			var declarationPrelude []Token
-			for _, token := range declaration.Prelude {
-				if pa.IsLiteral(token, "&") {
-					hasNesting = true
-					declarationPrelude = append(declarationPrelude, colon, is)
-				} else {
-					declarationPrelude = append(declarationPrelude, token)
+			for i, part := range pa.SplitOnComma(declaration.Prelude) {
+				if i > 0 {
+					declarationPrelude = append(declarationPrelude, pa.NewLiteral(",", pos11))
 				}
-			}
-			if !hasNesting {
-				// No & selector, prepend parent.
-				declarationPrelude = append([]Token{colon, is, pa.NewWhitespace(" ", pos11)},
-					declaration.Prelude...)
+				hasNesting := false
+				for _, token := range part {
+					if pa.IsLiteral(token, "&") {
+						hasNesting = true
+						break
+					}
+				}
+				if !hasNesting {
+					// No & selector, prepend parent.
+					declarationPrelude = append(declarationPrelude, colon, is, pa.NewWhitespace(" ", pos11))
+				}
+				// Replace & selector by parent.
+				for _, token := range part {
+					if pa.IsLiteral(token, "&") {
+						declarationPrelude = append(declarationPrelude, colon, is)
+					} else {
+						declarationPrelude = append(declarationPrelude, token)
+					}
+				}
 			}
 			contents, err := PreprocessDeclarationsPrelude(baseURL, pa.ParseBlocksContents(declaration.Content, false),
 				declarationPrelude)
